@@ -840,6 +840,26 @@ func (rr *relayRulesRun) checkApiInvariants(k *sim.Kernel) {
 				}
 			}
 		}
+		// I6: with auto-stop "immediately" (0 ms) in force a pull is only attempted while a consumer is present
+		// (presence within a second of the attempt is taken as present: joins, leaves and ticks share instants)
+		{
+			auto, nStart := -1, 0
+			for _, a := range rr.apis {
+				if a.kind == "start" && a.seq < o.Seq {
+					auto = a.autoStop
+					nStart++
+				}
+			}
+			near := false
+			for _, s := range rr.subIvl {
+				if s.from <= o.AtMs+1100 && (s.to < 0 || s.to >= o.AtMs-1100) {
+					near = true
+				}
+			}
+			if nStart == 1 && auto == 0 && rr.Plan.Conf.StaticPull == "" && !near {
+				k.Violate("C17.attempt-without-consumer", "pull attempt #%d started at %d ms although auto_stop_pull_after_no_out_ms is 0 and no consumer was present within a second of that instant", i, o.AtMs)
+			}
+		}
 		if lastStop >= 0 && lastStop > lastStart {
 			k.Violate("C17.attempt-after-stop", "pull attempt #%d started at %d ms although stop_relay_pull / kick_session was called (event %d) and the pull was not started again", i, o.AtMs, lastStop)
 		}
